@@ -1099,7 +1099,17 @@ def r15_10(ctx, prog, crate):
     ctx.anchor("R15.10", "per-kind counter builders", n, 4)
 
 
+def r15_11(ctx, prog, crate):
+    """(= R14.3) `ignore` resolves for the terse listing exactly as for a run: run_tree_list threads the inherited options
+    through its recursion, merges each node's own options over them with overwrite() and lets the runner's value win at the
+    leaf - a node that sets some other option must not mask the `ignore` it inherits."""
+    from .C14 import r14_3
+    from .common import Renamed
+    r14_3(Renamed(ctx, "R15.11"), prog, crate)
+
+
 def run(ctx, prog, crate):
+    r15_11(ctx, prog, crate)
     r15_10(ctx, prog, crate)
     r15_8(ctx, prog, crate)
     r15_9(ctx, prog, crate)
